@@ -1,6 +1,9 @@
 import RsslVerif.Lemmas.Overload
 import RsslVerif.Lemmas.Conv
 import RsslVerif.Lemmas.OverloadLazy
+import RsslVerif.Lemmas.OverloadT
+import RsslVerif.Gen.ResolveShape
+import RsslVerif.Model.OverloadSrc
 /-!
 # C16 — overload resolution is order-independent and prefers exact matches
 
@@ -10,7 +13,7 @@ candidate lists, arities and argument lists (no size bound), with the conversion
 -/
 namespace RsslVerif.Thm.C16
 open RsslVerif.Gen.RankTable RsslVerif.Model.Conv RsslVerif.Model.Overload RsslVerif.Spec.Overload
-open RsslVerif.Lemmas.Overload RsslVerif.Lemmas.Conv
+open RsslVerif.Lemmas.Overload RsslVerif.Lemmas.Conv RsslVerif.Lemmas.OverloadT
 
 /-! ## facts about the extracted tables (a one-cell change of casting.rs breaks one of these) -/
 
@@ -320,5 +323,247 @@ theorem resolveLazy_perm {cands cands' : List Cand} (h : List.Perm cands cands')
   rw [resolveLazy_eq_resolve cands args hid,
       resolveLazy_eq_resolve cands' args ((h.map (·.id)).nodup_iff.mp hid)]
   exact resolve_perm_normalized h args
+
+/-! ## candidates of every kind: function templates, default arguments, methods, intrinsics
+
+`GCand` is a candidate whose first half of `find_overload_casts` (template argument deduction and instantiation) is an
+**arbitrary** function of the argument types that may succeed, fail or panic, with an arbitrary arity range
+(`nonDefault ≤ #args ≤ arity`).  Ordinary functions (`Cand.toG`) and the function templates of the correspondence run
+(`TCand.toG`: `T`, `vector<T, n>`, `matrix<T, x, y>`, `T p[n]`, type and value template parameters, explicit template
+arguments) are instances.  `WF` says that instantiating does not change the number of parameters. -/
+
+/-- **Order independence, candidates of every kind.**  Whatever the deduction relation, the arity ranges and the
+    arguments: permuting the declaration order leaves the verdict unchanged (also *whether* a panic site is reached). -/
+theorem resolveG_perm {cands cands' : List GCand} (h : List.Perm cands cands') (args : List ETy) :
+    Outcome.Equiv (resolveG cands args) (resolveG cands' args) := by
+  simp only [resolveG, resolveResults]
+  have hm := h.map (rankG args)
+  rw [any_perm hm]
+  by_cases hp : (List.map (rankG args) cands').any CandResult.isPanic = true
+  · simp [hp, Outcome.Equiv]
+  · simp only [hp, Bool.false_eq_true, if_false]
+    exact resolveRanked_perm (hm.filterMap _)
+
+theorem resolveG_perm_normalized {cands cands' : List GCand} (h : List.Perm cands cands') (args : List ETy) :
+    (resolveG cands args).normalize = (resolveG cands' args).normalize :=
+  normalize_eq_of_equiv (resolveG_perm h args)
+
+/-- ordinary functions seen as `GCand`s resolve exactly as in the model of the first round -/
+theorem resolveG_of_plain (cands : List Cand) (args : List ETy) :
+    resolveG (cands.map Cand.toG) args = resolve cands args := resolveG_plain cands args
+
+/-- ordinary functions and the generator's function templates are well-formed -/
+theorem plain_wf (c : Cand) : WF c.toG := toG_wf c
+theorem template_wf (explicit : List TArg) (c : TCand) : WF (c.toG explicit) := tcand_wf explicit c
+
+/-- **Not dominated, candidates of every kind** (default arguments and templates included): the selected candidate
+    is viable and no viable candidate converts every argument at least as well and one strictly better. -/
+theorem selectedG_not_dominated {cands : List GCand} {args : List ETy} {i : Nat}
+    (hwf : ∀ g ∈ cands, WF g) (hid : (cands.map (·.id)).Nodup) (h : resolveG cands args = .selected i) :
+    ∃ g ∈ cands, g.id = i ∧ ∃ rc, ViableG args g rc ∧
+      ∀ d ∈ cands, ∀ rd, ViableG args d rd → ¬ Dominates rd rc := by
+  have hnp := not_instPanics_of_ne_panic (by rw [h]; simp : resolveG cands args ≠ .panic)
+  rw [resolveG_eq_resolve_instances hwf hnp] at h
+  obtain ⟨c, hc, hci, rc, hv, hnd⟩ := selected_not_dominated (instances_ids_nodup hid) h
+  obtain ⟨g, hg, hgc⟩ := mem_instances.mp hc
+  refine ⟨g, hg, by rw [← instOf_id hgc]; exact hci, rc, (viableG_iff (hwf g hg)).mpr ⟨c, hgc, hv⟩, ?_⟩
+  intro d hd rd hvd
+  obtain ⟨c', hc', hv'⟩ := (viableG_iff (hwf d hd)).mp hvd
+  exact hnd c' (mem_instances.mpr ⟨d, hd, hc'⟩) rd hv'
+
+/-- a selected candidate of any kind is one of the declared candidates and viable -/
+theorem selectedG_is_viable {cands : List GCand} {args : List ETy} {i : Nat}
+    (hwf : ∀ g ∈ cands, WF g) (hid : (cands.map (·.id)).Nodup) (h : resolveG cands args = .selected i) :
+    ∃ g ∈ cands, g.id = i ∧ ∃ rc, ViableG args g rc := by
+  obtain ⟨g, hg, hi, rc, hv, _⟩ := selectedG_not_dominated hwf hid h
+  exact ⟨g, hg, hi, rc, hv⟩
+
+/-- **A unique exact match is selected, candidates of every kind** — provided no candidate's instantiation panics
+    (it can: `Thm.C16.template_vector_of_vector_panics`). -/
+theorem unique_exact_selectedG {cands : List GCand} {args : List ETy}
+    (hwf : ∀ g ∈ cands, WF g) (hid : (cands.map (·.id)).Nodup) (hnp : NoPanicG cands args)
+    {g : GCand} (hg : g ∈ cands) (hex : ExactMatchG args g)
+    (huniq : ∀ d ∈ cands, ExactMatchG args d → d.id = g.id) :
+    resolveG cands args = .selected g.id := by
+  rw [resolveG_eq_resolve_instances hwf (not_instPanics_of_noPanicG hnp)]
+  obtain ⟨rs, hv, hre⟩ := hex
+  obtain ⟨c, hc, hvc⟩ := (viableG_iff (hwf g hg)).mp hv
+  rw [← instOf_id hc]
+  apply unique_exact_selected (instances_ids_nodup hid) (mem_instances.mpr ⟨g, hg, hc⟩) ⟨rs, hvc, hre⟩
+  intro d hd ⟨rd, hvd, hred⟩
+  obtain ⟨g', hg', hgd⟩ := mem_instances.mp hd
+  rw [instOf_id hgd, instOf_id hc]
+  exact huniq g' hg' ⟨rd, (viableG_iff (hwf g' hg')).mpr ⟨d, hgd, hvd⟩, hred⟩
+
+/-- **Two exact matches are ambiguous, candidates of every kind** (e.g. `template<typename T> f(T)` next to `f(int)`
+    for an `int` argument: the type checker does not prefer the non-template). -/
+theorem twin_exact_ambiguousG {cands : List GCand} {args : List ETy}
+    (hwf : ∀ g ∈ cands, WF g) (hid : (cands.map (·.id)).Nodup) (hnp : NoPanicG cands args)
+    {g d : GCand} (hg : g ∈ cands) (hd : d ∈ cands) (hne : g.id ≠ d.id)
+    (hexg : ExactMatchG args g) (hexd : ExactMatchG args d) :
+    ∃ ids, resolveG cands args = .ambiguous ids ∧ g.id ∈ ids ∧ d.id ∈ ids ∧
+      ∀ i ∈ ids, ∃ e ∈ cands, e.id = i ∧ ExactMatchG args e := by
+  rw [resolveG_eq_resolve_instances hwf (not_instPanics_of_noPanicG hnp)]
+  obtain ⟨rg, hvg, hreg⟩ := hexg
+  obtain ⟨rd, hvd, hred⟩ := hexd
+  obtain ⟨cg, hcg, hvcg⟩ := (viableG_iff (hwf g hg)).mp hvg
+  obtain ⟨cd, hcd, hvcd⟩ := (viableG_iff (hwf d hd)).mp hvd
+  obtain ⟨ids, hr, h1, h2, h3⟩ := twin_exact_ambiguous (instances_ids_nodup hid)
+    (mem_instances.mpr ⟨g, hg, hcg⟩) (mem_instances.mpr ⟨d, hd, hcd⟩)
+    (by rw [instOf_id hcg, instOf_id hcd]; exact hne) ⟨rg, hvcg, hreg⟩ ⟨rd, hvcd, hred⟩
+  refine ⟨ids, hr, by rw [← instOf_id hcg]; exact h1, by rw [← instOf_id hcd]; exact h2, ?_⟩
+  intro i hi
+  obtain ⟨e, he, hei, re, hve, hree⟩ := h3 i hi
+  obtain ⟨g', hg', hge⟩ := mem_instances.mp he
+  exact ⟨g', hg', by rw [← instOf_id hge]; exact hei, re, (viableG_iff (hwf g' hg')).mpr ⟨e, hge, hve⟩, hree⟩
+
+/-- **Refinement, candidates of every kind.**  `resolveGLazy` follows the source's evaluation order: the arity guard,
+    then the template step of `find_overload_casts` (where a panic aborts the whole call), then the `zip` loop, then the
+    lazily ranked tournament.  It computes the same outcome as `resolveG`. -/
+theorem resolveGLazy_eq_resolveG (cands : List GCand) (args : List ETy) (hwf : ∀ g ∈ cands, WF g)
+    (hid : (cands.map (·.id)).Nodup) : resolveGLazy cands args = resolveG cands args :=
+  resolveGLazy_eq cands args hwf hid
+
+theorem resolveGLazy_perm {cands cands' : List GCand} (h : List.Perm cands cands') (args : List ETy)
+    (hwf : ∀ g ∈ cands, WF g) (hid : (cands.map (·.id)).Nodup) :
+    (resolveGLazy cands args).normalize = (resolveGLazy cands' args).normalize := by
+  rw [resolveGLazy_eq_resolveG cands args hwf hid,
+      resolveGLazy_eq_resolveG cands' args (fun g hg => hwf g (h.mem_iff.mpr hg)) ((h.map (·.id)).nodup_iff.mp hid)]
+  exact resolveG_perm_normalized h args
+
+/-! ### the function templates of the correspondence run -/
+
+/-- order independence of `find_function_type` on declared overloads with function templates among them, for any
+    explicit template arguments -/
+theorem resolveT_perm {cands cands' : List TCand} (h : List.Perm cands cands') (explicit : List TArg) (args : List ETy) :
+    (resolveT cands explicit args).normalize = (resolveT cands' explicit args).normalize :=
+  resolveG_perm_normalized (h.map _) args
+
+/-- the literal transcription (what answers the correspondence requests) equals the form the theorems are about -/
+theorem resolveTLazy_eq_resolveT (cands : List TCand) (explicit : List TArg) (args : List ETy)
+    (hid : (cands.map (·.id)).Nodup) : resolveTLazy cands explicit args = resolveT cands explicit args := by
+  apply resolveGLazy_eq_resolveG
+  · intro g hg
+    obtain ⟨c, _, rfl⟩ := List.mem_map.mp hg
+    exact tcand_wf explicit c
+  · simpa [List.map_map, Function.comp_def, TCand.toG] using hid
+
+/-- non-vacuity of the `G` theorems: a template, an ordinary function and a defaulted parameter in one set -/
+example :
+    let tT : TCand := ⟨0, [.type], [⟨.tvar 0, .in⟩], 1⟩
+    let fF : TCand := ⟨1, [], [⟨.conc ⟨{}, .scalar .float32⟩, .in⟩], 1⟩
+    let fD : TCand := ⟨2, [], [⟨.conc ⟨{}, .scalar .float64⟩, .in⟩, ⟨.conc ⟨{}, .scalar .int32⟩, .in⟩], 1⟩
+    let i : List ETy := [⟨⟨{}, .scalar .int32⟩, .lvalue⟩]
+    let f : List ETy := [⟨⟨{}, .scalar .float32⟩, .rvalue⟩]
+    let h : List ETy := [⟨⟨{}, .scalar .float16⟩, .rvalue⟩]
+    resolveT [tT, fF, fD] [] i = .selected 0 ∧ resolveT [fD, fF, tT] [] i = .selected 0 ∧
+    resolveT [tT, fF, fD] [] f = .ambiguous [0, 1] ∧ resolveT [fD, fF, tT] [] f = .ambiguous [1, 0] ∧
+    resolveT [fF, fD] [] h = .selected 1 ∧ resolveT [fD, fF] [] h = .selected 1 ∧
+    resolveT [tT, fF, fD] [.type ⟨{}, .scalar .float64⟩] h = .selected 0 := by decide
+
+/-- recorded reading: a function template whose deduced signature matches exactly ties with an exactly matching
+    ordinary function (C++ would prefer the non-template); replayed on the real code by corpus/C16.txt -/
+theorem template_twin_is_ambiguous :
+    resolveT [⟨0, [.type], [⟨.tvar 0, .in⟩], 1⟩, ⟨1, [], [⟨.conc ⟨{}, .scalar .int32⟩, .in⟩], 1⟩] []
+      [⟨⟨{}, .scalar .int32⟩, .lvalue⟩] = .ambiguous [0, 1] := by decide
+
+/-- an untyped literal deduces `T = int` (`normalize_template_type`), which the literal then reaches by a promotion -/
+theorem template_literal_deduces_int :
+    (TCand.mk 0 [.type] [⟨.tvar 0, .in⟩] 1).targs [] [⟨⟨{}, .scalar .intLiteral⟩, .rvalue⟩]
+      = some [.type ⟨{}, .scalar .int32⟩] ∧
+    rankG [⟨⟨{}, .scalar .intLiteral⟩, .rvalue⟩] ((TCand.mk 0 [.type] [⟨.tvar 0, .in⟩] 1).toG [])
+      = .ranked 0 [⟨.promotion, .exact⟩] := by decide
+
+/-- `vector<T, 3>` is not deduced from a `const float3` (the modifier layer hides the vector), `T` is -/
+theorem template_const_vector_argument :
+    resolveT [⟨0, [.type], [⟨.tvec 0 3, .in⟩], 1⟩] [] [⟨⟨{ isConst := true }, .vector .float32 3⟩, .lvalue⟩] = .unmatched ∧
+    resolveT [⟨0, [.type], [⟨.tvar 0, .in⟩], 1⟩] [] [⟨⟨{ isConst := true }, .vector .float32 3⟩, .lvalue⟩] = .selected 0 := by
+  decide
+
+/-- explicit template arguments make every ordinary function non-viable -/
+theorem explicit_args_exclude_plain_functions :
+    resolveT [⟨0, [], [⟨.conc ⟨{}, .scalar .float32⟩, .in⟩], 1⟩] [.type ⟨{}, .scalar .float32⟩]
+      [⟨⟨{}, .scalar .float32⟩, .lvalue⟩] = .unmatched := by decide
+
+/-- **Defect on the pinned tree** (known_findings.jsonl): a template that is merely *considered* panics the type
+    checker when `T` in `vector<T, n>` is bound to a non-scalar — here `T = float3` deduced from the first parameter.
+    Corpus lines replay it on the real code (`ir_types.rs: vector<..> inside vector`). -/
+theorem template_vector_of_vector_panics :
+    resolveT [⟨0, [.type], [⟨.tvar 0, .in⟩, ⟨.tvec 0 2, .in⟩], 2⟩, ⟨1, [], [⟨.conc ⟨{}, .vector .float32 3⟩, .in⟩,
+      ⟨.conc ⟨{}, .vector .float32 2⟩, .in⟩], 2⟩] []
+      [⟨⟨{}, .vector .float32 3⟩, .lvalue⟩, ⟨⟨{}, .vector .float32 2⟩, .lvalue⟩] = .panic ∧
+    resolveT [⟨0, [.type], [⟨.tvec 0 2, .in⟩], 1⟩] [.type ⟨{}, .vector .float32 3⟩]
+      [⟨⟨{}, .vector .float32 2⟩, .lvalue⟩] = .panic := by decide
+
+
+/-- **`T` matches every argument exactly**: a template `f(T a)` called with any argument whose type is not an
+    untyped literal (any value category, any qualifiers, scalars, vectors, matrices, structs, enums, arrays) is viable
+    with rank Exact/Exact — so next to it no ordinary overload can be selected unless it is exact as well -/
+theorem template_param_matches_exactly (id : Nat) (a : ETy) (h : NonLiteral a.ty.layer) :
+    rankG [a] ((TCand.mk id [.type] [⟨.tvar 0, .in⟩] 1).toG []) = .ranked id [⟨.exact, .exact⟩] :=
+  tvar_in_param_matches_exactly id a h
+
+/-- templates whose parameters are concrete types or bare `T`s never reach a panic site, whatever the explicit
+    template arguments and the call: the instantiation panic needs a `vector<T, n>` / `matrix<T, x, y>` / `T[n]` parameter -/
+theorem simple_templates_never_panic (cands : List TCand) (h : ∀ c ∈ cands, SimpleTemplate c) (explicit : List TArg)
+    (args : List ETy) : NoPanicG (cands.map (TCand.toG explicit)) args := by
+  intro g hg
+  obtain ⟨c, hc, rfl⟩ := List.mem_map.mp hg
+  exact simple_template_never_panics c (h c hc) explicit args
+
+/-- hence for such overload sets a unique exact match is selected — no panic hypothesis -/
+theorem unique_exact_selectedT {cands : List TCand} (hs : ∀ c ∈ cands, SimpleTemplate c) (explicit : List TArg)
+    {args : List ETy} (hid : (cands.map (·.id)).Nodup) {c : TCand} (hc : c ∈ cands)
+    (hex : ExactMatchG args (c.toG explicit))
+    (huniq : ∀ d ∈ cands, ExactMatchG args (d.toG explicit) → d.id = c.id) :
+    resolveT cands explicit args = .selected c.id := by
+  have h := unique_exact_selectedG (cands := cands.map (TCand.toG explicit)) (args := args)
+    (fun g hg => by obtain ⟨d, _, rfl⟩ := List.mem_map.mp hg; exact tcand_wf explicit d)
+    (by simpa [List.map_map, Function.comp_def, TCand.toG] using hid)
+    (simple_templates_never_panic cands hs explicit args)
+    (List.mem_map.mpr ⟨c, hc, rfl⟩) hex
+    (by
+      intro g hg hge
+      obtain ⟨d, hd, rfl⟩ := List.mem_map.mp hg
+      exact huniq d hd hge)
+  exact h
+
+/-! ## the tie of the hand-written model to the source text
+
+`Gen.ResolveShape` is re-extracted from typer/src/typer/{expressions,scopes}.rs on every run. -/
+
+/-- every syntactic fact the transcription relies on holds in the current source: the arity guard precedes
+    `find_overload_casts`; the tournament compares all pairs, skips the candidate itself, loses only on `Worse`, its `zip`
+    loop has no early exit and the `against` loop breaks; `count_by_rank` counts equal vector ranks, worst first; the
+    minimum is taken with `<` and exactly the minimal ones are kept; one ⇒ selected, several ⇒ ambiguous, none ⇒
+    unmatched; template arguments: too many ⇒ not viable, explicit first, the first parameter that infers wins, value
+    parameters are never inferred, every argument is normalized, template arguments on an ordinary function ⇒ not
+    viable; the `zip` loop over `ImplicitConversion::find` stops at the first failure; the innermost scope that knows the
+    name supplies the whole overload list, in insertion order; a struct supplies all its methods of that name; an
+    intrinsic object all its functions of that name; `find_function_type` is called from `write_function` and
+    `write_method` only -/
+theorem resolve_shape_as_modelled :
+    RsslVerif.Gen.ResolveShape.shape =
+      { arityGuardThenCasts := true, tournamentComparesAllPairsSkippingSelf := true,
+        zipLoopHasNoEarlyExitAndOnlyWorseLoses := true, againstLoopBreaksOnWorseAndWinnersArePushed := true,
+        countByRankCountsEqualVectorRank := true, orderVectorIsWorstToBestCounts := true,
+        bestOrderIsTheMinimumByLess := true, keepsExactlyTheMinimal := true,
+        oneSelectedSeveralAmbiguousElseUnmatched := true, tooManyTemplateArgsNotViable := true,
+        explicitArgsFirstThenInferredValueParamsNever := true, firstParameterThatInfersWins := true,
+        everyTemplateArgIsNormalized := true, templateArgsOnPlainFunctionNotViable := true,
+        zipFindStopsAtFirstFailure := true, innermostScopeWithTheNameWins := true,
+        scopeContributesItsOwnFunctionsOnly := true, overloadsAreAppended := true,
+        methodsAreAllMethodsOfThatName := true } ∧
+    RsslVerif.Gen.ResolveShape.callers = ["write_function", "write_method"] ∧
+    RsslVerif.Gen.ResolveShape.objectMethodsAreAllFunctionsOfThatName = true := by decide
+
+/-- the four transcribed functions are, character for character (comments and white space aside), the text the model
+    was transcribed from -/
+theorem resolve_source_as_transcribed :
+    RsslVerif.Gen.ResolveShape.findFunctionTypeSrc = RsslVerif.Model.OverloadSrc.findFunctionType ∧
+    RsslVerif.Gen.ResolveShape.findOverloadCastsSrc = RsslVerif.Model.OverloadSrc.findOverloadCasts ∧
+    RsslVerif.Gen.ResolveShape.tryInferTemplateTypeSrc = RsslVerif.Model.OverloadSrc.tryInferTemplateType ∧
+    RsslVerif.Gen.ResolveShape.normalizeTemplateTypeSrc = RsslVerif.Model.OverloadSrc.normalizeTemplateType :=
+  ⟨rfl, rfl, rfl, rfl⟩
 
 end RsslVerif.Thm.C16
